@@ -125,8 +125,17 @@ def gen_wrapper_case(rng):
     return w
 
 
+# minimal failing input of the repaired defect D40 (fails the oracle on the unrepaired library)
+_B = {'inputs': ['p', 'q'], 'outputs': ['g'], 'gates': [('p', 'INPUT', []), ('q', 'INPUT', []), ('g', 'AND', ['p', 'q'])],
+      'users': [('p', ['g']), ('q', ['g'])], 'blocks': []}
+_O = {'inputs': ['a'], 'outputs': ['z'], 'gates': [('a', 'INPUT', []), ('z', 'NOT', ['a'])], 'users': [('a', ['z'])],
+      'blocks': []}
+REGRESSIONS = [{'base': _B, 'other': _O, 'tc': ['p', 'q'], 'oc': ['z', 'z'], 'right': True, 'name': '', 'add_prefix': False},
+               {'base': _B, 'other': _O, 'tc': ['p', 'q'], 'oc': ['z', 'z'], 'right': True, 'name': 'N1', 'add_prefix': True}]
+
+
 def oracle_cases(ctx, corr):
-    return [gen_connect_case(ctx.rng) for _ in range(ctx.n(400, 5000))] + \
+    return [dict(c) for c in REGRESSIONS] + [gen_connect_case(ctx.rng) for _ in range(ctx.n(400, 5000))] + \
            [gen_wrapper_case(ctx.rng) for _ in range(ctx.n(300, 3000))]
 
 
